@@ -48,6 +48,21 @@ def judge(prop, shards, out, fn, engine, binname, agg):
             else:
                 out.inconclusive_shard("allocdrv crashed with signal %d (C09's verdict)" % -sh.returncode)
             continue
+        if binname == "sandwichdrv" and sh.returncode in (-4, -6, -7, -11) and not sh.timed_out:
+            # the sandwich driver sends only valid requests for real memory, on std threads and on bare pthreads, some of them from
+            # thread-local destructors that run after the allocator stack's own per-thread state is gone; the logging layers neither
+            # allocate nor panic. A process that aborts / crashes in that traffic was brought down by the profiler between them.
+            if prop == "C09":
+                n_done = len([r for r in sh.runs if r.complete])
+                culprit = sh.lines[n_done] if n_done < len(sh.lines) else sh.lines[-1]
+                where = "thread_teardown" if "thread/local.rs" in sh.stderr or "Thread Local Storage" in sh.stderr else "request"
+                out.violation("C09:process_brought_down:%s:signal_%d" % (where, -sh.returncode),
+                              "the process died (signal %d) while valid requests were passing through AllocProfiler as the global allocator: %s" % (
+                                  -sh.returncode, sh.stderr[-300:].replace("\n", " | ")),
+                              {"engine": engine, "bin": binname, "cfg": culprit, "stderr": sh.stderr[-1500:]})
+            else:
+                out.inconclusive_shard("sandwichdrv died with signal %d (C09's verdict)" % -sh.returncode)
+            continue
         if binname == "allocdrv" and sh.returncode == 101 and not sh.timed_out and prop == "C09":
             # a panic raised inside the profiler's own code (its source file named in the panic message) while it was asked to
             # forward a request: the wrapped allocator never saw the call
